@@ -427,6 +427,30 @@ func runFunToken(r *hx.R, n int, w *hx.W, _ []string) error {
 					write()
 				}
 				res = fail(err, "")
+			case c < 15 && smart == "sendToEvm" && smartHolder == 4 && smartTok >= 2 && r.Chance(1, 2):
+				// a round trip in ONE transaction: the proxy converts X of its coins into the ERC20 (to itself) and sends the same X
+				// back to the bank, both through the precompile — every touched ERC20 slot returns to its value of before the tx
+				// while the second call's entry has flushed the intermediate values
+				// (coin-born mappings and an ordinary recipient only: both calls are meant to SUCCEED — a successful precompile call
+				// followed by a failing one in the same transaction is the listed C04 finding, not what this case is after)
+				a := smartAmt()
+				to := 1 + r.Pick(3)
+				toS, form := toForm(to)
+				selfS, selfForm := toForm(4)
+				in1, _ := funtokenABI.Pack("sendToEvm", smartDenom, big.NewInt(a), selfS)
+				in2, _ := funtokenABI.Pack("sendToBank", toks[smartTok], big.NewInt(a), toS)
+				op = fmt.Sprintf("ft pc2 4 sendToEvm %s %d 4 %s then sendToBank %d %d %d %s", denomName(smartDenom), a, selfForm, smartTok, a, to, form)
+				seq := append(seqEntry(pcAddr, in1), seqEntry(pcAddr, in2)...)
+				eoa := 1 + r.Pick(3)
+				ret, vmErr, err := ethTx(ctx, eoa, &proxy, proxyCalldata(2, seqLib, big.NewInt(0), 0, maxU256, seq))
+				res = fail(err, vmErr)
+				if res == "ok" {
+					if len(ret) < 96 || new(big.Int).SetBytes(ret[:32]).Sign() == 0 {
+						res = "seq-library-failed"
+					} else if new(big.Int).SetBytes(ret[64:96]).Uint64() != 3 {
+						res = "fail" // one of the two calls failed (the other, if it succeeded, stands)
+					}
+				}
 			case c < 15: // precompile call
 				via := []string{"top", "proxy", "revert", "seq"}[r.Pick(4)]
 				caller := 1 + r.Pick(3)
